@@ -166,6 +166,12 @@ func errClass(err error) string {
 		return "err:exists"
 	case strings.Contains(s, "failed to unmarshal key data"):
 		return "err:json"
+	case strings.Contains(s, "key file has no salt (legacy format) and the passphrase is empty"):
+		return "err:emptypass"
+	case strings.Contains(s, "invalid key file: nonce has"):
+		return "err:nonce"
+	case strings.Contains(s, "public key does not match the private key"):
+		return "err:pubmismatch"
 	case strings.Contains(s, "failed to decrypt private key"):
 		return "err:auth"
 	case strings.Contains(s, "failed to unmarshal private key"):
